@@ -223,6 +223,10 @@ def snap_real_raw(E, terms, cap=20000):
         return ('cyclic',)
 
 
+# other Python constants as terms (API level only), keyed by their repr as snap_real reports them
+PYCONST = {repr(x): x for x in (None, 2.5, -0.5, b'a', (), (1, 2))}
+
+
 def build_real(yp, t, vmap, atomf=None):
     """build an engine term from a tuple term; variables via vmap (name->Variable); atomf (optional) supplies the
     atom objects (atoms held from earlier / made by another engine are the same terms)"""
@@ -231,6 +235,8 @@ def build_real(yp, t, vmap, atomf=None):
         return atomf(t[1]) if atomf else yp.atom(t[1])
     if k in ('i', 's'):
         return t[1]
+    if k == 'py':
+        return PYCONST[t[1]]
     if k == 'v':
         if t[1] == '_':
             return yp.variable()
